@@ -3,9 +3,10 @@
 #   a body begins only on an offered message, at most once, within the concurrency limit, never after the exception surfaced; a put reported as
 #   rejected was not processed; wait_for_all returns only when nothing runs and - in a loss-less graph - everything offered was processed).
 #   Real graphs (function-node chains with unlimited / serial / limited / lightweight / rejecting nodes, broadcast fan-out with a second source,
-#   a throwing body followed by a second wait and reset) with 3 external putters are validated by TLC (TraceFlow).
+#   a throwing body followed by a second wait and reset, an input_node source, an async_node whose gateway is completed from a thread outside
+#   the arena under reserve_wait / release_wait, a limiter feedback cycle) with 2-3 external putters and an arena thread that executes graph tasks from the start are validated by TLC (TraceFlow).
 import vlib, flowlib
-SCEN = ['chain0', 'chain1', 'chainR', 'fan', 'cancel']
+SCEN = ['chain0', 'chain1', 'chainR', 'fan', 'cancel', 'input', 'async', 'limitc1', 'limitc2']
 
 
 def run(res, tier, seed):
